@@ -74,7 +74,7 @@ func genCase(t *rapid.T) Case {
 	for i := 0; i < n; i++ {
 		kind := "retain"
 		if i > 0 {
-			kind = rapid.SampledFrom([]string{"retain", "read", "read", "read-goroutine", "read-conn", "write", "conn-retain", "conn-retain", "conn-read", "conn-read", "retain-odd", "reserialize", "unmarshal", "answer", "inspect", "echo", "marshal-echo", "buf-retain", "buf-read", "buf-read", "scribble"}).Draw(t, "kind")
+			kind = rapid.SampledFrom([]string{"retain", "read", "read", "read-goroutine", "read-conn", "write", "conn-retain", "conn-retain", "conn-read", "conn-read", "retain-odd", "reserialize", "unmarshal", "answer", "inspect", "echo", "marshal-echo", "buf-retain", "buf-read", "buf-read", "scribble", "retain-again", "scribble"}).Draw(t, "kind")
 		}
 		var m gen.Msg
 		m.Flags, m.Code, m.App, m.HbH, m.E2E = cat.Header(t)
@@ -196,7 +196,12 @@ func scribble(avps []*diam.AVP) bool {
 				d[i] ^= 0xa5
 				did = true
 			}
+		case datatype.OctetString:
+			// (a string-backed value cannot be changed in place: the holder replaces it)
+			a.Data = datatype.OctetString("scribbled:" + string(d))
+			did = true
 		}
+		a.Flags ^= 0x20
 	}
 	return did
 }
@@ -312,6 +317,19 @@ func runCase(c Case) *ev.Failure {
 			r := &retained{step: i, m: m, want: &st.Msg, ref: ref, avps: avpSnapshot(m.AVP, 0)}
 			r.str = m.String()
 			kept = append(kept, r)
+		case "retain-again":
+			// the same bytes arrive once more (a retransmission, a second peer sending the same
+			// content) and are kept too: two private copies of identical content
+			if len(kept) > 0 && kept[0].want != nil {
+				k0 := kept[0]
+				m, err := diam.ReadMessage(bytes.NewReader(k0.ref), p)
+				if err != nil {
+					return ev.Failf("harness-read", "step %d: reference image rejected: %v", i, err)
+				}
+				r := &retained{step: i, m: m, want: k0.want, ref: k0.ref, avps: avpSnapshot(m.AVP, 0)}
+				r.str = m.String()
+				kept = append(kept, r)
+			}
 		case "buf-retain", "buf-read":
 			// the application collects received bytes in a bytes.Buffer of its own and decodes from it
 			shared.Write(ref)
@@ -545,7 +563,7 @@ func readThroughConn(p *dict.Parser, ref []byte, step int) *ev.Failure {
 
 var prop = ev.Register(&ev.Prop[Case]{
 	ID: "C06", Name: "retained",
-	Rule: "histories of {retain a decoded message, retain a message delivered by a long-lived library-served connection while that connection goes on receiving, read other content on the same goroutine / another goroutine / through a fresh or the same library-served in-memory connection, read / retain from one bytes.Buffer that the application refills, WriteTo, re-serialise, Unmarshal into a reused struct, Answer, inspect (FindAVP / FindAVPs / FindAVPsWithPath through its groups, String, Len), echo the AVPs of a retained message into an answer with AddAVP / InsertAVP or through Marshal of a []*diam.AVP field, retain a non-canonical wire image (other widths of fixed-width, IPv4 and IPv6 AVPs, version octet 0 / 2 / 255), overwrite in place the slice-backed values of one retained message (the others must not change)} with messages made of slice-backed types (Address IPv4/IPv6/other, IPv4, IPv6, OctetString, undefined codes, groups of them) on both sides of the 1 KiB pooled buffer; after EVERY step every retained message must still equal the abstract message it was decoded from (tree, re-serialisation, rendering, and the snapshot of code / flags / vendor id / Length / value bytes of every AVP taken when it was decoded); non-trivial = a retained message with a slice-backed value and body <= 1024 followed by a later read with body <= 1024",
+	Rule: "histories of {retain a decoded message, retain a message delivered by a long-lived library-served connection while that connection goes on receiving, read other content on the same goroutine / another goroutine / through a fresh or the same library-served in-memory connection, read / retain from one bytes.Buffer that the application refills, WriteTo, re-serialise, Unmarshal into a reused struct, Answer, inspect (FindAVP / FindAVPs / FindAVPsWithPath through its groups, String, Len), echo the AVPs of a retained message into an answer with AddAVP / InsertAVP or through Marshal of a []*diam.AVP field, retain a non-canonical wire image (other widths of fixed-width, IPv4 and IPv6 AVPs, version octet 0 / 2 / 255), keep a second decoding of the bytes of the first retained message, overwrite in place the slice-backed values (and replace others, and flip a flag bit) of one retained message - the others must not change} with messages made of slice-backed types (Address IPv4/IPv6/other, IPv4, IPv6, OctetString, undefined codes, groups of them) on both sides of the 1 KiB pooled buffer; after EVERY step every retained message must still equal the abstract message it was decoded from (tree, re-serialisation, rendering, and the snapshot of code / flags / vendor id / Length / value bytes of every AVP taken when it was decoded); non-trivial = a retained message with a slice-backed value and body <= 1024 followed by a later read with body <= 1024",
 	Gen:  genCase, Run: runCase,
 	Classify: func(c Case) (bool, []string) {
 		var cl []string
